@@ -28,10 +28,17 @@ type c19bCase struct {
 	Enabled bool   `json:"enabled"`
 	Marker  string `json:"marker"`
 	Streams int    `json:"streams"`
+	// telemetry interval in seconds of a disabled configuration (0 and negative
+	// values included: nothing reads it while telemetry is off); 1 when enabled
+	Interval int `json:"interval"`
 }
 
 func genC19b(t *rapid.T) c19bCase {
-	return c19bCase{Enabled: rapid.Bool().Draw(t, "enabled"), Marker: "MRK" + rapid.StringMatching(`[a-z]{5}`).Draw(t, "marker"), Streams: rapid.IntRange(0, 2).Draw(t, "streams")}
+	c := c19bCase{Enabled: rapid.Bool().Draw(t, "enabled"), Marker: "MRK" + rapid.StringMatching(`[a-z]{5}`).Draw(t, "marker"), Streams: rapid.IntRange(0, 2).Draw(t, "streams"), Interval: 1}
+	if !c.Enabled {
+		c.Interval = rapid.SampledFrom([]int{1, 1, 0, -1, 86400}).Draw(t, "interval")
+	}
+	return c
 }
 
 type c19Recorder struct {
@@ -73,7 +80,10 @@ func runC19b(c c19bCase, o *vfutil.Obs) *vfutil.Failure {
 	defer os.RemoveAll(dir)
 	s, err := vfStart(dir, "a", ns, func(cfg *Config) {
 		cfg.Telemetry.Enabled = c.Enabled
-		cfg.Telemetry.IntervalSeconds = 1
+		cfg.Telemetry.IntervalSeconds = c.Interval
+		if c.Enabled {
+			cfg.Telemetry.IntervalSeconds = 1
+		}
 		cfg.NATS.User = c.Marker + "user" // never used for authentication by the test NATS server
 		cfg.NATS.Password = c.Marker + "password"
 		cfg.Clustering.Namespace = c.Marker + "ns"
@@ -109,8 +119,22 @@ func runC19b(c c19bCase, o *vfutil.Obs) *vfutil.Failure {
 		}
 	} else {
 		time.Sleep(30 * time.Millisecond)
+		if s.telemetry != nil {
+			// a collector exists although telemetry is off: that alone is not a
+			// request, but it is worth watching for longer (an enabled collector
+			// sends its first report at once)
+			o.Label("collector-exists-while-disabled")
+			for deadline := time.Now().Add(2 * time.Second); time.Now().Before(deadline); {
+				rec.mu.Lock()
+				n := len(rec.reqs)
+				rec.mu.Unlock()
+				if n > 0 {
+					break
+				}
+				time.Sleep(5 * time.Millisecond)
+			}
+		}
 	}
-	hasCollector := s.telemetry != nil
 	s.Stop()
 	rec.mu.Lock()
 	reqs := rec.reqs
@@ -123,9 +147,7 @@ func runC19b(c c19bCase, o *vfutil.Obs) *vfutil.Failure {
 		if len(reqs) != 0 {
 			return vfutil.Failf("C19/disabled-but-reported", "telemetry disabled but %d HTTP request(s) were made, first to %s", len(reqs), reqs[0].URL)
 		}
-		if hasCollector {
-			return vfutil.Failf("C19/disabled-but-collector-created", "telemetry disabled but the server created a collector")
-		}
+		o.Label(fmt.Sprintf("disabled-interval:%d", c.Interval))
 		return nil
 	}
 	o.Label("enabled")
